@@ -185,7 +185,9 @@ def f_missing_body(rng, roots):
 
 
 def f_forbidden_annotation(rng, roots):
-    cands = [n for n, _ in walk(roots) if kw(n) in ("URL", "Title", "Version", "INFO", "OperationId", "Protocol", "BaseUrl") and "//" not in n.text]
+    cands = [n for n, _ in walk(roots) if kw(n) in ("URL", "Title", "Version", "INFO", "OperationId", "Protocol", "BaseUrl", "Query", "Headers", "Params", "Result", "Request") and "//" not in n.text]
+    # a Body directly under a Request (not under a response, where the annotation is the body's)
+    cands += [c for n, _ in walk(roots) if kw(n) == "Request" for c in n.children if kw(c) == "Body" and "//" not in c.text]
     n = pick(rng, cands)
     if not n:
         return None
